@@ -296,7 +296,13 @@ def finish(prop, tier, seed, cfg, reports, trouble, wall, build_s):
             known_u.append(k)
     # fresh-process confirmation of every reported violation
     confirmed = []
+    nspin = 0
     for v in violations[:4]:
+        if v["class"].startswith("spin/task-never-yields"):
+            # replaying a hang costs a full watchdog period: confirm only the first
+            nspin += 1
+            if nspin > 1:
+                continue
         rp = replay_file(v["replay"], quiet=True)
         v["fresh_process_replay"] = rp
         confirmed.append(v)
